@@ -280,6 +280,27 @@ def fastRun (busy : List Nat) (index : Nat) (ts : List Term) (n : Nat) : Coro Ac
             (.withCtx .skip .skip (.seq (.act (.progDel index)) (.act (.groupDel index)))
               (fastBody ts n))))))
 
+/-! ### a group that is started again
+
+`SyncGroup.start` may be called again once the task is done (`assert self.task is None or self.task.done()`), and a
+fast group's `start` likewise runs `run` anew.  The next run finds each terminal in the AL state the last state request
+of the run before left it in (conformant terminals take every requested state), everything else as declared. -/
+
+def alStep (t : Nat) (s : Nat) : Act → Nat
+  | .setState t' v => if t' = t then v % 16 else s
+  | _ => s
+
+/-- AL state of terminal `t` after the requests of a trace -/
+def alAfter (tr : List Act) (t start : Nat) : Nat := tr.foldl (alStep t) start
+
+def restartTerms (tr : List Act) (ts : List Term) : List Term :=
+  ts.map fun t => { t with start := alAfter tr t.pos t.start }
+
+/-- the group object is started once per entry of `ks`, each run cancelled at that await (of that run) -/
+def runsOf (mk : List Term → Coro Act) : List (Option Nat) → List Term → List (Res Act)
+  | [], _ => []
+  | k :: ks, ts => run k (mk ts) 0 :: runsOf mk ks (restartTerms (run k (mk ts) 0).trace ts)
+
 def isCancelled : Exc → Bool
   | .cancelled => true
   | _ => false
